@@ -201,7 +201,8 @@ def exec (refCheck : Bool) (db : DB) : Stmt → Option DB
       if c == "" then some db        -- table comment: the table must exist; not part of the schema compared
       else if !tb.hasCol c then none
       else some (db.replace { tb with cols := tb.cols.map (fun x =>
-        if x.name == c then { x with opts := x.opts.filter (fun o => match o with | .comment _ => false | _ => true) ++ [.comment text] } else x) })
+        if x.name == c then { x with opts := x.opts.filter (fun o => match o with | .comment _ => false | _ => true) ++
+          (if text == "" then [] else [.comment text]) } else x) })      -- `IS NULL` (empty text here) removes the comment
 
   -- the Postgres spellings of MODIFY COLUMN, one aspect at a time: the column must exist, its position is kept
   | .alterType t c typ =>
